@@ -23,8 +23,8 @@ type Pair struct {
 // model counts at least one step per implementation operation, so a program the
 // model finishes cannot legitimately exhaust the implementation's budget.
 const (
-	ImplMaxOps    = 200000
-	ModelMaxSteps = 20000
+	ImplMaxOps    = 6000
+	ModelMaxSteps = 2500
 )
 
 func NewPair(ops pscmp.OpTable) *Pair {
